@@ -5,7 +5,7 @@ import ast
 from collections import deque
 from collections.abc import Iterable, Mapping
 from enum import Enum
-from typing import Optional, Union
+from typing import Optional, Union, cast
 
 from formulaic.utils.layered_mapping import LayeredMapping
 
@@ -74,24 +74,81 @@ def get_expression_variables(
     return set(variables)
 
 
+_SCOPED_COMPREHENSIONS = (ast.ListComp, ast.SetComp, ast.DictComp, ast.GeneratorExp)
+
+
 def _get_ast_node_variables(node: ast.AST, aliases: Mapping) -> list[Variable]:
     variables: list[Variable] = []
 
-    todo = deque([node])
+    # Every node is visited together with the names that are bound locally at
+    # that point of the expression (lambda parameters, comprehension targets).
+    # Such names are never looked up in the evaluation context, and so are not
+    # variables of the expression.
+    todo: deque[tuple[ast.AST, frozenset[str]]] = deque([(node, frozenset())])
     while todo:
-        node = todo.popleft()
+        node, bound = todo.popleft()
+        if isinstance(node, ast.Lambda):
+            # Defaults are evaluated where the lambda is written; the body sees
+            # the parameters.
+            args = node.args
+            todo.extend(
+                (default, bound)
+                for default in (*args.defaults, *args.kw_defaults)
+                if default is not None
+            )
+            params = {
+                arg.arg
+                for arg in (
+                    *args.posonlyargs,
+                    *args.args,
+                    args.vararg,
+                    *args.kwonlyargs,
+                    args.kwarg,
+                )
+                if arg is not None
+            }
+            todo.append((node.body, bound | params))
+            continue
+        if isinstance(node, _SCOPED_COMPREHENSIONS):
+            # The targets of all generators are local to the comprehension;
+            # only the iterable of the first generator is evaluated outside it.
+            inner = bound | {
+                target.id
+                for generator in node.generators
+                for target in ast.walk(generator.target)
+                if isinstance(target, ast.Name) and isinstance(target.ctx, ast.Store)
+            }
+            if isinstance(node, ast.DictComp):
+                todo.append((node.key, inner))
+                todo.append((node.value, inner))
+            else:
+                todo.append((node.elt, inner))
+            for index, generator in enumerate(node.generators):
+                todo.append((generator.target, inner))
+                todo.append((generator.iter, bound if index == 0 else inner))
+                todo.extend((condition, inner) for condition in generator.ifs)
+            continue
         # Only (calls of) plain `name.attr...` chains are variables; anything
         # else (calls on call results, attributes of other expressions, ...) is
         # an ordinary expression all of whose children need to be visited.
-        name = _get_ast_node_name(node.func if isinstance(node, ast.Call) else node)
+        chain = node.func if isinstance(node, ast.Call) else node
+        name = _get_ast_node_name(chain)
         if name is None:
-            todo.extend(ast.iter_child_nodes(node))
+            todo.extend((child, bound) for child in ast.iter_child_nodes(node))
+            continue
+        while isinstance(chain, ast.Attribute):
+            chain = chain.value
+        if cast(ast.Name, chain).id in bound:
+            # A locally bound name (or an attribute of one).
+            if isinstance(node, ast.Call):
+                todo.extend((arg, bound) for arg in node.args)
+                todo.extend((keyword, bound) for keyword in node.keywords)
             continue
         name = aliases.get(name, name)
         if isinstance(node, ast.Call):
             variables.append(Variable(name, roles=["callable"]))
-            todo.extend(node.args)
-            todo.extend(node.keywords)
+            todo.extend((arg, bound) for arg in node.args)
+            todo.extend((keyword, bound) for keyword in node.keywords)
         else:
             variables.append(Variable(name, roles=["value"]))
 
